@@ -44,8 +44,10 @@ Definition allow : list allowed := [
   mkAllowed "t4_geom_convert/main.py" "main" "sys.argv"
     "reading the options: an input of the conversion";
   (* ---- iterations over sets ---- *)
-  mkAllowed "t4_geom_convert/Kernel/Volume/ConstructVolumeT4.py" "remove_unused_volumes" "iterate unused"
-    "the loop body only deletes the key from the dictionary; the result does not depend on the order (theorem C18_remove_keys_order_irrelevant)";
+  (* (the loop `for key in unused: del dic[key]` of remove_unused_volumes needs no
+     entry any more: the translator classifies a loop whose body only deletes /
+     discards the loop variable from another container as SinkInsensitive —
+     theorem C18_remove_keys_order_irrelevant) *)
   mkAllowed "t4_geom_convert/Kernel/Volume/VolumeT4.py" "VolumeT4.__repr__" "iterate self.pluses"
     "debug representation (sets of int surface ids rendered in an f-string); the writer uses __str__, which sorts (theorem C18_volume_text_order_irrelevant)";
   mkAllowed "t4_geom_convert/Kernel/Volume/VolumeT4.py" "VolumeT4.__repr__" "iterate self.minuses"
